@@ -358,10 +358,127 @@ def _more(name):
     return run
 
 
+
+def _normaliser_instance_names(repo):
+    """module-level names bound to an instance of the normaliser class, with the modules that see them"""
+    nz = A.normalizer(repo)
+    names = set()
+    for st in nz.module.tree.body:
+        if isinstance(st, ast.Assign) and isinstance(st.value, ast.Call) and call_name(st.value) == nz.name:
+            names |= {t.id for t in st.targets if isinstance(t, ast.Name)}
+    return names
+
+
+def r12_annotations_mean_what_they_mean_where_they_are_written(ctx):
+    """Every call of the normaliser on an annotation read from a function's signature hands over, as the context in
+    which a string annotation is evaluated, that same function: the annotation's source `inspect.signature(E)` and the
+    context argument are the same expression (locals assigned once are substituted, a conditional source is followed
+    into the branch the call is in)."""
+    from ..model import parent_map
+    from .common import path_atoms  # noqa: F401
+
+    repo = ctx.repo
+    names = _normaliser_instance_names(repo)
+    ctx.require(names, "no module-level instance of the normaliser")
+    nz = A.normalizer(repo)
+
+    def defs_of(fnode, name):
+        out = []
+        for n in ast.walk(fnode):
+            if isinstance(n, ast.Assign):
+                for t in n.targets:
+                    if any(isinstance(x, ast.Name) and x.id == name for x in ast.walk(t)):
+                        out.append(n.value)
+            elif isinstance(n, (ast.For, ast.comprehension)):
+                if any(isinstance(x, ast.Name) and x.id == name for x in ast.walk(n.target)):
+                    out.append(n.iter)
+            elif isinstance(n, ast.NamedExpr) and n.target.id == name:
+                out.append(n.value)
+        return out
+
+    def resolved(fnode, e, depth=0):
+        """e with locals that are assigned exactly once (plain `x = <expr>`) substituted"""
+        if depth > 4:
+            return e
+
+        class Sub(ast.NodeTransformer):
+            def visit_Name(self, n):
+                if isinstance(n.ctx, ast.Load):
+                    ds = [a for a in ast.walk(fnode) if isinstance(a, ast.Assign) and len(a.targets) == 1 and isinstance(a.targets[0], ast.Name) and a.targets[0].id == n.id]
+                    stores = [x for x in ast.walk(fnode) if isinstance(x, ast.Name) and x.id == n.id and isinstance(x.ctx, ast.Store)]
+                    if len(ds) == 1 and len(stores) == 1:
+                        return resolved(fnode, ds[0].value, depth + 1)
+                return n
+
+        import copy
+
+        return Sub().visit(copy.deepcopy(e))
+
+    n_sites = 0
+    for f in repo.all_funcs():
+        if f.cls is nz:
+            continue
+        for c in ast.walk(f.node):
+            if not (isinstance(c, ast.Call) and isinstance(c.func, ast.Name) and c.func.id in names):
+                continue
+            # owned by the innermost function only
+            if any(c in list(ast.walk(g.node)) for g in repo.all_funcs() if g is not f and g.parent is f):
+                continue
+            args = list(c.args) + [k.value for k in c.keywords]
+            if len(args) < 2:
+                continue
+            first, context = args[0], args[1]
+            # the functions whose signature / annotations the first argument is read from
+            sources = []
+            seen = set()
+            work = [first]
+            while work:
+                e = work.pop()
+                for x in ast.walk(e):
+                    if isinstance(x, ast.Call) and (call_name(x) or "").split(".")[-1] in ("signature", "get_annotations", "get_type_hints") and x.args:
+                        sources.append(x.args[0])
+                    elif isinstance(x, ast.Attribute) and x.attr == "__annotations__":
+                        sources.append(x.value)
+                    elif isinstance(x, ast.Name) and isinstance(x.ctx, ast.Load) and x.id not in seen:
+                        seen.add(x.id)
+                        work += defs_of(f.node, x.id)
+            if not sources:
+                continue
+            n_sites += 1
+            ctx.touch(f)
+            pm = parent_map(f.node)
+            # tests of the `if` statements the call is in, with the branch it is in
+            branches = {}
+            cur = c
+            while cur in pm:
+                p_ = pm[cur]
+                if isinstance(p_, ast.If) and cur is not p_.test:
+                    branches[ast.unparse(resolved(f.node, p_.test))] = any(cur is s_ for s_ in p_.body)
+                cur = p_
+
+            def pick(e):
+                e = resolved(f.node, e)
+                while isinstance(e, ast.IfExp) and ast.unparse(e.test) in branches:
+                    e = e.body if branches[ast.unparse(e.test)] else e.orelse
+                return ast.unparse(e)
+
+            want = sorted({pick(e) for e in sources})
+            got = pick(context)
+            ctx.ob(
+                f"{f.key}:annotation-context:{short(first, 40)}",
+                f.loc(c),
+                f"`{short(c, 70)}`: the annotation is read from `{' / '.join(want)}` and normalised in the context of that same function (a string annotation is evaluated in the globals of the function that carries it)",
+                want == [got],
+                f"the annotation comes from `{' / '.join(want)}` but is normalised in the context of `{got}`: a string annotation there is evaluated in another namespace (or none), so the string and the type it names no longer behave alike",
+            )
+    ctx.require(n_sites >= 3, f"expected the normaliser to be called on signature annotations in at least three places (found {n_sites})")
+
+
 RULES = [
     ("C15.R5", "P1", r5, "every value of a Literal counts on every code path (sibling footprints)"),
     ("C15.R1", "P1", r1_union_spellings_one_path, "every spelling of an annotation has the same normal form (normaliser interpreted; statement shapes as fallback)"),
     ("C15.R2", "P1", r2_normaliser_front, "strings first, Annotated unwrapped"),
+    ("C15.R16", "P1", r12_annotations_mean_what_they_mean_where_they_are_written, "an annotation read from a signature is normalised in the context of the function it was read from"),
     ("C15.R3", "P1", r3_generic_handlers_use_every_argument, "generic handlers use every argument"),
     ("C15.R4", "P1", r4_commutative_combinators, "commutative combinators compare without order"),
     ("C15.R6", "P1", _more("hash_reads_what_eq_compares"), "hash consults only what equality compares"),
